@@ -428,3 +428,24 @@ func VerifManifestLevelTables(m Manifest) []map[uint64]struct{} {
 }
 
 var _ = y.VerifEnabled
+
+// VerifTableIVs returns, per table id, the data key id and the IVs of its encrypted blocks and index.
+func (db *DB) VerifTableIVs() map[uint64]VerifTableIV {
+	out := map[uint64]VerifTableIV{}
+	for _, l := range db.lc.levels {
+		l.RLock()
+		for _, t := range l.tables {
+			b, idx := t.VerifBlockIVs()
+			out[t.ID()] = VerifTableIV{KeyID: t.KeyID(), Blocks: b, Index: idx}
+		}
+		l.RUnlock()
+	}
+	return out
+}
+
+// VerifTableIV is one table's entry of VerifTableIVs.
+type VerifTableIV struct {
+	KeyID  uint64
+	Blocks [][]byte
+	Index  []byte
+}
